@@ -134,7 +134,7 @@ def overlap_cases(draw):
 
 def run_shard(shard, ctx):
     n = 120 if ctx.tier == "quick" else 1200
-    run_given(ctx, decl.decl_cases(PROF, ntrees=3, mutate=True, trunc_cap=0, randoms=2), lambda c: run_case(ctx, c), n)
+    run_given(ctx, decl.decl_cases(PROF if ctx.tier == "quick" else gen.deeper(PROF), ntrees=3, mutate=True, trunc_cap=0, randoms=2), lambda c: run_case(ctx, c), n)
     run_given(ctx, overlap_cases(), lambda c: run_case(ctx, c), n // 3, salt=1)
     run_given(ctx, decl.layout_cases(), lambda c: run_case(ctx, c), n // 3, salt=2)
 
